@@ -56,7 +56,7 @@ Oracle, per datagram: the model (`Heartbeat.dispatch`, run datagram by datagram 
 `127.0.0.1:<src>`) says which single reply, if any, the datagram is answered with.  Every reply received must be the reply the
 model expects for a datagram sent so far that has not been answered yet (a reply may be late — handlers run on their own
 goroutines — but never early, never repeated, never different), and at the end every expected reply has arrived: so each datagram
-gets at most one reply and exactly the model's.  Outputs recorded before `per=` existed fall back to the per-run count. -/
+gets at most one reply and exactly the model's.  An output without `src=`/`per=` is a `BAD-LINE` (no count-only fallback). -/
 def udpBufferSize : Nat := UdpServer.defaultBufferSize
 
 def handleUdpSrv (payloads : String) (out : List String) : Verdict :=
@@ -86,13 +86,16 @@ def handleUdpSrv (payloads : String) (out : List String) : Verdict :=
           (st', pending, bad)) (({} : AbsState), [], [])
         let (_, pending, bad) := fin
         let matched := bad.isEmpty && pending.isEmpty
+        -- the harness's own total agrees with its windows
+        let total := (windows.map fun w => if w == "-" then 0 else (w.splitOn "+").length).foldl (· + ·) 0
+        if total != n then .bad s!"C06 udpsrv: replies:{n} but the windows list {total}" else
         let ok := allAlive && matched
         verdict ok ok ((cond allAlive "" "sig=udp-server-dead ") ++ (cond bad.isEmpty "" s!"sig=udp-reply-not-the-models:{bad} ") ++
           (cond pending.isEmpty "" s!"sig=udp-reply-missing:{pending.map (·.take 40)} "))
       | _, _ => .bad "C06 udpsrv src/payloads"
-    | _, _ =>
-      let ok := allAlive && n ≤ lives.length
-      verdict true ok (if allAlive then "sig=udp-more-than-one-reply" else "sig=udp-server-dead")
+    -- the harness always prints `src=` and `per=` (`harness/internal/c06/c06.go: runUDPServer`): an output without them is
+    -- not judged by a count — it is a line the driver does not understand
+    | _, _ => .bad s!"C06 udpsrv: src=/per= missing (replies:{n})"
 
 /-- `stall:<S>:<F>` of the stall measurements (`cstall`: browser port, `cstallhttp`: REST port) -/
 def handleStall (out : List String) : Verdict :=
